@@ -66,9 +66,9 @@ def main():
     kani_results = []
     if spec.get('kani'):
         import kanirun
-        which = [k for k in spec['kani'] if tier == 'thorough' or k.get('tier', 'thorough') == 'quick']
-        for k in which:
-            kani_results.append(kanirun.run_harness_set(k))
+        kn = [k['obligation'] for k in load_known() if k['property'] == pid]
+        for k in spec['kani']:
+            kani_results.append(kanirun.run_harness_set(k, tier, kn))
     if tier == 'thorough':
         # stability margin: re-run every unit with the resource limit halved
         with cf.ThreadPoolExecutor(max_workers=4) as ex:
@@ -165,7 +165,7 @@ def main():
             fragile.append({'unit': r['unit'], 'at_half_rlimit': r['status'], 'reason': r.get('reason'),
                             'failed': [f['obligation'] for f in r['failures']][:10]})
     ev = {
-        'property_id': pid, 'tier': tier, 'seed': seed, 'level': 'proof',
+        'property_id': pid, 'tier': tier, 'seed': seed, 'level': spec.get('level', 'proof'),
         'coverage': {
             'obligations': n_oblig, 'discharged': n_disch,
             'checker_cmd': ' ; '.join(r['cmd'] for r in results if r.get('cmd')),
